@@ -23,8 +23,7 @@ LEMMAS = [
 NATIVE = [
     dict(name="observed convergence order of the real schemes and analytic helpers", harness="scheme_order", kind="bounded",
          bound="8/16/32 steps over 4 h, time-dependent rotation; EF/RK2/RK4 + get_velocity1/2(s=1,1/2,2/3)/4"),
-, 
-          dict(name="encoder validation: the interpreter in concrete mode vs the real numpy/numba functions", harness="validate_encoder", kind="validation", prepare="pyvc.validate:run_validation")]
+    dict(name="encoder validation: the interpreter in concrete mode vs the real numpy/numba functions", harness="validate_encoder", kind="validation", prepare="pyvc.validate:run_validation")]
 EXPLANATION = (
     "Each scheme is proved equal to its explicit Runge-Kutta tableau applied to an uninterpreted velocity field "
     "(stage positions, clipping, fractional stage times), the tableau is proved to satisfy the order conditions, and "
